@@ -131,13 +131,19 @@ def rule_true_implies_eq(ctx):
                 if t[0] == 'op' and t[1] == '==' and len(t) == 4:
                     for x, y in ((t[2], t[3]), (t[3], t[2])):
                         cand = None
+                        decoded = False
                         if x[0] == 'call' and x[1].endswith('::Decode') and len(x[2]) == 1 and x[2][0][0] == 'deref' and y == par:
                             cand = x[2][0][1]
+                            decoded = True
                         elif x[0] == 'deref' and y == enc:
                             cand = x[1]
                         if cand is not None:
                             k = kinds.kind_of_term(cand) or kinds.kind_of_term(resolve_calls(f.unit, cand))
                             if k and k[0] == 'FIRST_GE' and k[1] in (enc, resolve_calls(f.unit, enc)):
+                                eq_atoms.append(a)
+                            elif k and decoded and _contains(k[2], ('field', 'data', ('this',))) and _contains(k[3], ('field', 'data', ('this',))):
+                                # the decoded element of *any* position of the container equal to p is a stored point equal to p
+                                # (which position is searched is KIND's obligation, that it is an element END-GUARD's)
                                 eq_atoms.append(a)
                             elif not k:
                                 unknown_cand = True
@@ -554,10 +560,21 @@ def rule_contains_kind(ctx):
             calls_helpers = any((f.n(c).get('ct') or '').startswith(MD + '::') and f.n(c).get('cn') not in ('encode',) for c in f.calls())
             obs.append(Ob('KIND', f, 0, 'a lower_bound search for encode(p)', 'no binary search call found' + (' in contains() itself' if calls_helpers else ''), UNDECIDED if calls_helpers else VIOLATED, arm='contains'))
             continue
+        DATA = ('field', 'data', ('this',))
+        capped = ('call', 'std::clamp', (enc, ('call', 'std::vector::front', (), DATA), ('call', 'std::vector::back', (), DATA)), None)
         for s in sites:
             k = kinds.kind_of_term(f.term(s, inline=True))
             ok = bool(k) and k[0] == 'FIRST_GE' and k[1] == enc
             rng_ok = False
+            if k and k[0] == 'FIRST_GE' and k[1] == capped:
+                # the code routed to the nearest stored one: the same position for every code within [front, back]; outside of
+                # it no stored code equals encode(p), and the comparison with p (TRUE-IMPLIES-EQ, FALSE-IMPLIES-ABSENT) decides
+                srch = ('call', 'pgm::PGMIndex::search', (capped,), ('field', 'pgm', ('this',)))
+                rng_ok = _contains(k[2], ('field', 'lo', srch)) and _contains(k[3], ('field', 'hi', srch))
+                obs.append(Ob('KIND', f, s, 'FIRST_GE(encode(p)) within [search(encode(p)).lo, .hi)',
+                              f"FIRST_GE(encode(p) capped to [data.front(), data.back()]) over [{fmt_term(k[2])}, {fmt_term(k[3])})",
+                              OK if rng_ok else VIOLATED, arm='contains'))
+                continue
             if k:
                 srch = ('call', 'pgm::PGMIndex::search', (enc,), ('field', 'pgm', ('this',)))
                 rng_ok = _contains(k[2], ('field', 'lo', srch)) and _contains(k[3], ('field', 'hi', srch))
@@ -611,13 +628,73 @@ def rule_contains_deref_guard(ctx):
                     if c and isinstance(lab, bool) and not (i in set(f.walk(c))):
                         facts += endguard.implications(f, c, lab)
             guarded = any((not is_end) and (y == xt or f_inline(f, y) == xi) for (y, is_end) in facts)
+            found = 'after a test against end()' if guarded else 'without a preceding test against end(): for a code larger than every stored one the position is data.end()'
+            verdict = OK if guarded else VIOLATED
+            if not guarded and k[0] == 'FIRST_GE':
+                # the searched code is capped at the last stored one (std::clamp(c, _, data.back()) / std::min(c, data.back())):
+                # the first element not less than it exists whenever the container is not empty
+                cont = _capped_at_last(k[1])
+                if cont is not None and _window_over(k[2], cont) and _window_over(k[3], cont):
+                    ne = _nonempty_at(f, g, pos, cont, i)
+                    found = 'the searched code is capped at the last stored one' + (' and the container was found not empty' if ne else ', emptiness of the container not tested on this path')
+                    verdict = OK if ne else UNDECIDED
             obs.append(Ob('END-GUARD', f, i, 'the element at the lower-bound position is read only where that position was found different from data.end()',
-                          f"`*{fmt_term(xt)[:50]}` " + ('after a test against end()' if guarded else 'without a preceding test against end(): for a code larger than every stored one the position is data.end()'),
-                          OK if guarded else VIOLATED, arm='contains-deref'))
+                          f"`*{fmt_term(xt)[:50]}` " + found, verdict, arm='contains-deref'))
         if n == 0:
             obs.append(Ob('END-GUARD', f, 0, 'the element at the lower-bound position is read only where that position was found different from data.end()',
                           'no dereference of a search result in contains()', UNDECIDED, arm='contains-deref'))
     return obs
+
+
+def _strip_cast(t):
+    while isinstance(t, tuple) and t and t[0] == 'cast':
+        t = t[2]
+    return t
+
+
+def _capped_at_last(key):
+    """container C if the key term is std::clamp(_, _, C.back()) or std::min(_, C.back()) (either order), else None"""
+    key = _strip_cast(key)
+    if not (isinstance(key, tuple) and key and key[0] == 'call'):
+        return None
+    name, args = key[1], [_strip_cast(a) for a in key[2]]
+
+    def last_of(a):
+        if isinstance(a, tuple) and a and a[0] == 'call' and a[1].endswith('::back') and len(a) > 3 and not a[2]:
+            return a[3]
+        return None
+    if name == 'std::clamp' and len(args) == 3:
+        return last_of(args[2])
+    if name == 'std::min' and len(args) == 2:
+        return last_of(args[0]) or last_of(args[1])
+    return None
+
+
+def _window_over(t, cont):
+    """the window bound is an iterator of the container: cont.begin() [+ offset]"""
+    t = _strip_cast(t)
+    if isinstance(t, tuple) and t and t[0] == 'op' and len(t) == 4 and t[1] == '+':
+        t = _strip_cast(t[2])
+    return isinstance(t, tuple) and t and t[0] == 'call' and t[1].endswith('::begin') and len(t) > 3 and t[3] == cont
+
+
+def _nonempty_at(f, g, pos, cont, at):
+    """the CFG position is control dependent on the container's emptiness test being false"""
+    if not pos:
+        return False
+    for (b, lab) in g.transitive_control_deps(pos[0]):
+        c = g.cond(b)
+        if not c or not isinstance(lab, bool) or at in set(f.walk(c)):
+            continue
+        t = _strip_cast(f.term(c, inline=True))
+        neg = False
+        while isinstance(t, tuple) and t and t[0] == 'op' and len(t) == 3 and t[1] == '!':
+            neg = not neg
+            t = _strip_cast(t[2])
+        if isinstance(t, tuple) and t and t[0] == 'call' and t[1].endswith('::empty') and len(t) > 3 and t[3] == cont:
+            if lab == neg:
+                return True
+    return False
 
 
 def f_inline(f, y):
@@ -631,6 +708,64 @@ def f_inline(f, y):
 
 # ------------------------------------------------------------------------------------------ C13
 
+def _field_writes(f, FT):
+    """nodes that may modify the member FT of *this: assignments, ++/--, compound assignments, passing by non-const reference"""
+    out = []
+    for i in f.all_ids():
+        nd = f.n(i)
+        c = nd['c']
+        tgt = None
+        if c in ('BinaryOperator', 'CompoundAssignOperator') and nd.get('op', '').endswith('=') and nd['op'] not in ('==', '!=', '<=', '>='):
+            tgt = nd['ch'][0]
+        elif c == 'UnaryOperator' and nd.get('op') in ('++', '--'):
+            tgt = nd['ch'][0]
+        elif c == 'CXXOperatorCallExpr' and nd.get('op') in ('=', '+=', '-=', '++', '--') and nd.get('args'):
+            tgt = nd['args'][0]
+        if tgt is not None and f.term(tgt, inline=False) == FT:
+            out.append(i)
+        if c in ('CallExpr', 'CXXMemberCallExpr') and nd.get('pmodes'):
+            for k, a in enumerate(nd.get('args', [])):
+                if k < len(nd['pmodes']) and nd['pmodes'][k] == 'ref' and f.term(a, inline=False) == FT:
+                    out.append(i)
+    return out
+
+
+def _cached_elements(f, FT):
+    """{local id: declaration node} of the never re-assigned locals initialised with the element at the cursor, `const T z = *it;`"""
+    out = {}
+    for vid, d in f.defs.items():
+        init = f.single_def(vid)
+        if init and d.get('decl'):
+            t = f.term(init, inline=False)
+            while isinstance(t, tuple) and t and t[0] == 'cast':
+                t = t[2]
+            if t == ('deref', FT):
+                out[vid] = d['decl']
+    return out
+
+
+def _uncache(f, t, at, cached, writes):
+    """the term with every cached element local replaced by `*it`, where the cursor is not modified between the local's
+    declaration and the CFG element `at`"""
+    import reach
+    if not isinstance(t, tuple):
+        return t
+    if t and t[0] == 'local' and len(t) == 3 and t[2] in cached:
+        decl = cached[t[2]]
+        pa, pb = f.block_of(decl), f.block_of(at)
+        if pa and pb:
+            succ = reach._elem_succ(f)
+            A = reach._reach_elems(succ, pa, pa)
+            if pb in A:
+                for w in writes:
+                    pw = f.block_of(w)
+                    if pw and pw != pb and pw in A and pb in reach._reach_elems(succ, pw, pa):
+                        return t
+                return ('deref', ('field', 'it', ('this',)))
+        return t
+    return tuple(_uncache(f, x, at, cached, writes) for x in t)
+
+
 def rule_emit_guard(ctx):
     """a point is emitted (field p assigned from Decode(*it)) only under box_zcontains(zmin, zmax, *it) == true"""
     obs = []
@@ -642,6 +777,8 @@ def rule_emit_guard(ctx):
             if tn.endswith('::RangeIterator') and len(f.params) != 3:
                 continue
             g = graph(f)
+            cached = _cached_elements(f, IT)
+            it_writes = _field_writes(f, IT) if cached else []
             for i in f.all_ids():
                 nd = f.n(i)
                 is_assign = (nd['c'] == 'CXXOperatorCallExpr' and nd.get('op') == '=') or (nd['c'] == 'BinaryOperator' and nd.get('op') == '=')
@@ -650,6 +787,8 @@ def rule_emit_guard(ctx):
                 t = f.term(i, inline=False)
                 if t[2] != P:
                     continue
+                if cached:
+                    t = _uncache(f, t, i, cached, it_writes)
                 n_sites += 1
                 pos = f.block_of(i)
                 guard_ok = False
@@ -667,6 +806,16 @@ def rule_emit_guard(ctx):
                             form_ = ('!', form_)
                         for a in _atoms(form_):
                             at = f.term(a, inline=False)
+                            if cached:
+                                # the test reads the cached element and the cursor does not move between the test and the emission
+                                at = _uncache(f, at, a, cached, it_writes)
+                                pa_, pi_ = f.block_of(a), f.block_of(i)
+                                if pa_ and pi_ and at != f.term(a, inline=False):
+                                    import reach
+                                    succ_ = reach._elem_succ(f)
+                                    A_ = reach._reach_elems(succ_, pa_, pa_)
+                                    if any(f.block_of(w) and f.block_of(w) in A_ and pi_ in reach._reach_elems(succ_, f.block_of(w), pa_) and f.block_of(w) != pi_ for w in it_writes):
+                                        at = f.term(a, inline=False)
                             if at[0] == 'call' and at[1] == MD + '::box_zcontains':
                                 guard_txt = fmt_term(at) + ' == true'
                                 if tuple(at[2]) == want and _implies_atom(form_, a):
